@@ -51,7 +51,7 @@ LEVEL_NOTE = ("TreeCache is a value-level model (final integer addresses): with 
               "Symbol scoping is outside both models (same env on both sides = the hypothesis 'no reference to an enclosing local label / no shared "
               "private names'); that side is covered by the metamorphic sweep on rich programs.  '%expr' registers are unmodelled (explicit Crash). "
               "Known finding: '.end' inside a '.repeat' body (hypothesis no_end_in_body; refutation of the full statement in Props/C16_findings.v). "
-              "Print Assumptions: closed under the global context for all 25 theorems.")
+              "Print Assumptions: closed under the global context for all 26 theorems.")
 TECHNIQUE = "Coq proof about hand-written executable models + model/implementation correspondence in coqc + metamorphic search oracle on the real code"
 ASSUME = ["pdpy11's parser maps the generated text to the token tree that is handed to the model (the tree is taken from the parser itself)",
           "symbols used in a '.repeat' body resolve to the same definitions in the unrolled text (no enclosing local labels referenced)",
@@ -743,11 +743,12 @@ def budget_family(rep, quick):
     side = 1
     while side * side < m:
         side += 1
+    # nested: the 1-byte statement sits in the outer body, so the image stays small (side copies)
     cases = [("flat", m - 1, None, ""), ("flat", m, None, ""), ("flat", m + 1, None, ""),
-             ("nested", side - 1, side, ""), ("nested", side, side, ""),          # 255 + 255*256 = 65535 ; 256 + 256*256 > 65536
-             ("flat", m, None, ".byte 7")]
+             ("nested", side, side - 1, ".byte 7"),                               # 256 + 256*255 = 65536: the last one allowed
+             ("nested", side, side, ".byte 7")]                                   # 256 + 256*256: refused
     if not quick:
-        cases += [("flat", m - 1, None, ".byte 7"), ("flat", m + 1, None, ".byte 7"), ("nested", side, side - 1, ""), ("nested", side, side, ".byte 7")]
+        cases += [("nested", side - 1, side, ""), ("nested", side, side - 1, ""), ("nested", side, side, ""), ("flat", m + 1, None, ".byte 7")]
     pairs, metas = [], []
     for shape, n1, n2, stmt in cases:
         body = (stmt + "\n") if stmt else ""
@@ -755,9 +756,9 @@ def budget_family(rep, quick):
             total, copies = n1, n1
             rtext = ".repeat %d. {\n%s}\n" % (n1, body)
         else:
-            total, copies = n1 + n1 * n2, n1 * n2
-            rtext = ".repeat %d. {\n.repeat %d. {\n%s}\n}\n" % (n1, n2, body)
-        tail = "tail: .word 177777, tail\n"
+            total, copies = n1 + n1 * n2, n1
+            rtext = ".repeat %d. {\n%s.repeat %d. {\n}\n}\n" % (n1, body, n2)
+        tail = ".even\ntail: .word 177777, tail\n"
         pairs.append(([("t.mac", rtext + tail)], [("t.mac", body * copies + tail)], None))
         metas.append((shape, n1, n2, stmt, total))
     jobs = []
@@ -771,7 +772,7 @@ def budget_family(rep, quick):
         rep.count("budget:%s:%s:%s" % (shape, where, a["outcome"]))
         rep.nontrivial(("budget", shape, n1, n2, stmt))
         inp = {"files": [["t.mac", pairs[i][0][0][1][:200]]], "transformation": "unroll", "total_repetitions": total, "budget": m,
-               "written_out": "%d copies of %r" % ((n1 if shape == "flat" else n1 * n2), stmt)}
+               "written_out": "%d copies of %r" % (n1, stmt)}
         if total <= m:
             if view(a) != view(b):
                 rep.violate("repeat-unroll-at-budget:%s:%d" % (shape, total),
